@@ -108,7 +108,7 @@ def o_middleware(inp):
     if inp.get("name_fields") is not None:
         kw["name_fields"] = tuple(inp["name_fields"])
         nf = kw["name_fields"]
-    out = libgen.maybe_preuse(SeparateCoAuthors(**kw), inp["fields"], same=lib).transform(lib)
+    out = libgen.maybe_preuse(libgen.construct(SeparateCoAuthors, kw, inp["fields"]), inp["fields"], same=lib).transform(lib)
     e = out.blocks[0]
     cls = ["mw-custom-fields" if inp.get("name_fields") is not None else "mw-default-fields"]
     nontrivial = any(k in nf and "and" in v.lower() for k, v in inp["fields"])
@@ -118,7 +118,7 @@ def o_middleware(inp):
         exp = split_multiple_persons_names(v) if k in nf else v
         if f.value != exp or type(f.value) is not type(exp):
             return ((f"mw:separate:{'name' if k in nf else 'other'}-field", repr(f.value), repr(exp)), nontrivial, cls)
-    merged = libgen.maybe_preuse(MergeCoAuthors(**kw), inp["fields"]).transform(out)
+    merged = libgen.maybe_preuse(libgen.construct(MergeCoAuthors, kw, inp["fields"]), inp["fields"]).transform(out)
     e2 = merged.blocks[0]
     for f, (k, v) in zip(e2.fields, inp["fields"]):
         exp = " and ".join(split_multiple_persons_names(v)) if k in nf else v
